@@ -38,6 +38,14 @@ def wrong_b64(v):
     return base64.b64encode(bytes(raw)).decode()
 
 
+def case_twin(v):
+    """the same base64 text with the case of one letter swapped: another value of the same length (None when it has no letter)"""
+    for i, ch in enumerate(v):
+        if ch.isalpha():
+            return v[:i] + ch.swapcase() + v[i + 1:]
+    return None
+
+
 def hexd(b):
     return b.hex() if b else "-"
 
@@ -49,11 +57,11 @@ def payload(rnd, n):
 MODES = ["plain", "plain-unsigned", "unsigned-trailer", "signed", "signed-trailer"]
 MODE_CODE = {"plain": 0, "plain-unsigned": 0, "unsigned-trailer": 1, "signed": 3, "signed-trailer": 4}
 CORRUPTIONS = {
-    "plain": ["none", "none", "flip-body", "wrong-sha256", "wrong-md5", "wrong-cksum"],
+    "plain": ["none", "none", "flip-body", "wrong-sha256", "wrong-md5", "wrong-cksum", "wrong-md5-case", "wrong-cksum-case"],
     "plain-unsigned": ["none", "flip-body-md5", "wrong-md5", "wrong-cksum", "flip-body-cksum"],
-    "unsigned-trailer": ["none", "none", "flip-data", "wrong-trailer", "truncate", "truncate-at-data-end", "extra-chunk", "declared-more", "declared-less", "wrong-md5", "wrong-cksum"],
+    "unsigned-trailer": ["none", "none", "flip-data", "wrong-trailer", "wrong-trailer-case", "truncate", "truncate-at-data-end", "extra-chunk", "declared-more", "declared-less", "wrong-md5", "wrong-cksum"],
     "signed": ["none", "none", "flip-data", "wrong-chunk-sig", "truncate", "truncate-at-data-end", "extra-chunk", "declared-more", "declared-less", "wrong-md5", "wrong-cksum", "drop-final"],
-    "signed-trailer": ["none", "none", "flip-data", "wrong-chunk-sig", "wrong-trailer", "wrong-trailer-sig", "truncate", "truncate-at-data-end", "declared-more", "declared-less"],
+    "signed-trailer": ["none", "none", "flip-data", "wrong-chunk-sig", "wrong-trailer", "wrong-trailer-case", "wrong-trailer-sig", "truncate", "truncate-at-data-end", "declared-more", "declared-less"],
 }
 
 
@@ -65,8 +73,8 @@ def build_case(rnd, mode, corruption, size):
     cuts = sorted(rnd.sample(range(1, size), min(nchunks - 1, max(size - 1, 0)))) if size > 1 else []
     chunks = [P[a:b] for a, b in zip([0] + cuts, cuts + [size])] if size else []
     c["chunks"] = chunks
-    c["use_md5"] = corruption == "wrong-md5" or (corruption == "flip-body-md5") or rnd.random() < 0.25
-    c["algo"] = rnd.choice(list(ALGOS)) if (corruption in ("wrong-cksum", "flip-body-cksum") or rnd.random() < 0.3) and mode not in ("signed-trailer", "unsigned-trailer") else None
+    c["use_md5"] = corruption in ("wrong-md5", "wrong-md5-case") or (corruption == "flip-body-md5") or rnd.random() < 0.25
+    c["algo"] = rnd.choice(list(ALGOS)) if (corruption in ("wrong-cksum", "wrong-cksum-case", "flip-body-cksum") or rnd.random() < 0.3) and mode not in ("signed-trailer", "unsigned-trailer") else None
     if mode == "unsigned-trailer" and corruption == "wrong-cksum":
         c["algo"] = None; c["corruption"] = "wrong-trailer"
     return c
@@ -137,11 +145,13 @@ def run(chk):
                 declared = len(P)
                 md5v = base64.b64encode(hashlib.md5(P).digest()).decode()
                 if cor == "wrong-md5": md5v = wrong_b64(md5v)
+                if cor == "wrong-md5-case": md5v = case_twin(md5v) or wrong_b64(md5v)
                 if c["use_md5"]: headers["Content-MD5"] = md5v
                 ckv = None
                 if c["algo"]:
                     ckv = cksum(c["algo"], P)
                     if cor == "wrong-cksum": ckv = wrong_b64(ckv)
+                    if cor == "wrong-cksum-case": ckv = case_twin(ckv) or wrong_b64(ckv)
                     headers["x-amz-checksum-" + c["algo"]] = ckv
                 sha_hdr = None
                 if mode in ("plain", "plain-unsigned"):
@@ -181,6 +191,11 @@ def run(chk):
                             i = b.index(b"chunk-signature=") + 16; bb[i] = ord("0") if bb[i] != ord("0") else ord("1")
                         elif cor == "wrong-trailer":
                             i = b.rindex(b"x-amz-checksum-crc32:") + 21; bb[i] = ord("B") if bb[i] != ord("B") else ord("C")
+                        elif cor == "wrong-trailer-case":
+                            i = b.rindex(b"x-amz-checksum-crc32:") + 21
+                            j = next((x for x in range(i, i + 6) if chr(bb[x]).isalpha()), None)
+                            if j is not None: bb[j] = ord(chr(bb[j]).swapcase())
+                            else: bb[i] = ord("B") if bb[i] != ord("B") else ord("C")
                         elif cor == "wrong-trailer-sig":
                             i = b.rindex(b"x-amz-trailer-signature:") + 24; bb[i] = ord("0") if bb[i] != ord("0") else ord("1")
                         elif cor == "truncate":
@@ -223,6 +238,51 @@ def run(chk):
             # ---- directory objects: the payload is empty, the integrity assertions of the request still have to hold
             dres = dirobj_cases(chk, cl, label, rnd)
             chk.tie("gateway still running after the uploads", g.alive(), g.log_tail())
+
+    # ---- two uploads to one key (or one part) in flight at the same time, in both temp-file strategies: the first has received its
+    # whole body and is parked before it publishes; the second, corrupt, is refused meanwhile; what the first publishes is its own bytes
+    from vlib import hooks
+    for label, cfg in (("otmpfile", {"iam": False}), ("named-temp", {"iam": False, "otmp": False})):
+        with gw.Site(cfg, name="c06h") as site:
+            hk = hooks.Hooks(site.base)
+            g = site.gateway(gwbin, extra_env=hk.env())
+            A, B = s3c.Client(g.port, "root", "rootsecret"), s3c.Client(g.port, "root", "rootsecret")
+            chk.require(A.req("PUT", "/bk1").status == 200, "c06:setup:create-bucket", "CreateBucket failed")
+            n_ = 0
+            for part in (False, True):
+                for at in ("posix.putobject.bodywritten", "posix.putobject.beforelink", "posix.link.enter", "posix.link.named"):
+                    for second in ("wrong-md5-shorter", "wrong-md5-longer", "valid"):
+                        n_ += 1
+                        key = "both%03d" % n_; path = "/bk1/" + key; q = {}
+                        if part:
+                            uid_ = A.req("POST", path, query={"uploads": ""}).xml().findtext("UploadId"); q = {"partNumber": "1", "uploadId": uid_}
+                        bodyA = payload(rnd, 30000 + n_); bodyB = payload(rnd, 1000 + n_ if second == "wrong-md5-shorter" else 60000 + n_)
+                        md5B = base64.b64encode(hashlib.md5(bodyB).digest()).decode()
+                        hB = {"Content-MD5": md5B if second == "valid" else wrong_b64(md5B)}
+                        rA, rB, parked = hooks.held(hk, at, lambda: A.req("PUT", path, query=q, body=bodyA), lambda: B.req("PUT", path, query=q, body=bodyB, headers=hB))
+                        hk.clear()
+                        chk.case(("in-flight", label, part, at, second), parked); chk.traces += 1
+                        if not parked or rA is None or rB is None:
+                            chk.count("inflight:%s:not-reached" % label); continue
+                        if part:
+                            lp = A.req("GET", path, query={"uploadId": uid_})
+                            got = [(p_.findtext("Size"), (p_.findtext("ETag") or "").strip('"')) for p_ in lp.xml().findall("Part")] if lp.status == 200 and lp.xml() is not None else None
+                            stored = got[0] if got else None
+                            okA, okB = (str(len(bodyA)), hashlib.md5(bodyA).hexdigest()), (str(len(bodyB)), hashlib.md5(bodyB).hexdigest())
+                            A.req("DELETE", path, query={"uploadId": uid_})
+                        else:
+                            gr = A.req("GET", path); stored = (str(len(gr.body)), hashlib.md5(gr.body).hexdigest()) if gr.status == 200 else None
+                            okA, okB = (str(len(bodyA)), hashlib.md5(bodyA).hexdigest()), (str(len(bodyB)), hashlib.md5(bodyB).hexdigest())
+                        allowed = ([okA] if rA.status == 200 else []) + ([okB] if rB.status == 200 else [])
+                        chk.count("inflight:%s:%s:%s" % (label, second, "A" if stored == okA else "B" if stored == okB else "none" if stored is None else "other"))
+                        row = {"config": label, "upload_part": part, "first_parked_at": at, "second": second, "first_status": rA.status, "second_status": rB.status, "second_code": rB.code,
+                               "stored_size_md5": stored, "first_size_md5": okA, "second_size_md5": okB}
+                        if second != "valid" and rB.status == 200:
+                            chk.fail("c06:corrupt-upload-committed:in-flight:%s" % second, "[%s] an upload with a wrong Content-MD5, sent while another upload of the same %s was in flight, was acknowledged" % (label, "part" if part else "key"), row)
+                        elif allowed and stored not in allowed:
+                            chk.fail("c06:in-flight-uploads-mixed:%s" % label, "[%s] two uploads of one %s in flight together (the first parked at %s with its body received, the second %s, answered %d): what is stored afterwards "
+                                     "(%s) is neither upload's bytes" % (label, "part" if part else "key", at, second, rB.status, stored), row)
+            chk.tie("gateway still running after the in-flight uploads (%s)" % label, g.alive(), g.log_tail())
 
     # ---- model predictions
     lines = []
